@@ -380,7 +380,9 @@ func runSequential(w *Workload, prep [][]*Prepared, warm []*Prepared, order [][2
 			return nil, true
 		}
 	}
-	sim := simrt.NewSim(1, simrt.Policy{Mode: "serial"})
+	// one task cannot livelock against another: no yield cap (a document thousands of levels deep
+	// yields several hundred thousand times all by itself)
+	sim := simrt.NewSim(1, simrt.Policy{Mode: "serial", MaxYields: 1 << 40})
 	simrt.SetPermHook(nil)
 	simrt.StartClock(0x5e9 + uint64(len(order))) // the reference runs on another simulated day
 	sim.Spawn("seq", func() {
